@@ -488,3 +488,181 @@ def closure_arg_calls(F, fn, term, target_pred, depth=3):
                         if gf and any(target_pred(t["callee"]) for _, t in calls(gf)):
                             return True
     return False
+
+
+# ---- canonical expressions (self-comparison detection) -----------------------------------------------------------
+def _canon_proj(place):
+    out = []
+    for p in place["p"]:
+        if p == "*":
+            out.append("*")
+        elif isinstance(p, list) and p[0] == "f":
+            out.append("." + str(p[2]))
+        elif isinstance(p, list) and p[0] == "d":
+            out.append("as#" + str(p[1]))
+        elif isinstance(p, list) and p[0] == "i":
+            out.append(("idx", p[1]))
+        elif isinstance(p, list):
+            out.append(tuple(str(x) for x in p))
+        else:
+            out.append(str(p))
+    return out
+
+
+def _norm_path(path):
+    out = []
+    for e in path:
+        if e == "*" and out and out[-1] == "&":
+            out.pop()
+        else:
+            out.append(e)
+    return tuple(out)
+
+
+def mut_aliased(fn):
+    """locals that are mutably borrowed / partially stored / of `&mut` type: their value (or pointee) may change between two reads"""
+    m = fn.get("_mut_aliased")
+    if m is not None:
+        return m
+    m = set()
+    for bi, si, s in stmts(fn):
+        r = s["r"]
+        if r["k"] in ("ref", "raw") and r.get("mut") and r["o"] and is_place(r["o"][0]):
+            m.add(r["o"][0]["l"])
+        if s["d"]["p"]:
+            m.add(s["d"]["l"])
+    for bi, t in calls(fn):
+        if t["dest"]["p"]:
+            m.add(t["dest"]["l"])
+    for l, ty in enumerate(fn["locals"]):
+        if ty.startswith("&mut") or ty.startswith("*mut"):
+            m.add(l)
+    fn["_mut_aliased"] = m
+    return m
+
+
+def expr(fn, op, depth=0, memo=None, impure=None):
+    """Canonical expression tree of an operand, through single-definition temporaries only:
+       (root, path) with root in ('arg',n) | ('const',text) | ('fn',path) | ('call',callee,(args..)) | ('bin',op,a,b)
+       | ('un',op,a) | ('agg',name,(ops..)) | ('opaque',id).  Two operands with equal trees denote the same value
+       provided the calls in them are deterministic and take no `&mut` argument (those become opaque, unique per site)."""
+    if memo is None:
+        memo = {}
+    if is_const(op):
+        return (("const", op["c"]), ())
+    if is_fnconst(op):
+        return (("fn", op["fn"]), ())
+    if not is_place(op):
+        return (("opaque", id(op)), ())
+    l = op["l"]
+    proj = _canon_proj(op)
+    if ("idx",) in [e[:1] for e in proj if isinstance(e, tuple)]:
+        proj = [(("idx", expr(fn, {"l": e[1], "p": []}, depth + 1, memo, impure)) if isinstance(e, tuple) and e[0] == "idx" else e) for e in proj]
+    if l in memo:
+        base = memo[l]
+    else:
+        memo[l] = (("opaque", ("rec", l)), ())
+        D = defs(fn)
+        ds = D.get(l, [])
+        if l in mut_aliased(fn):
+            base = (("opaque", ("mut", l)), ())
+        elif 1 <= l <= fn["argc"] and not ds:
+            base = (("arg", l), ())
+        elif len(ds) != 1 or ("p", l) in D or depth > 60:
+            base = (("opaque", ("local", l)), ())
+        elif ds[0][0] == "s":
+            r = ds[0][3]["r"]
+            k = r["k"]
+            if k == "use":
+                base = expr(fn, r["o"][0], depth + 1, memo, impure)
+            elif k in ("ref", "raw"):
+                b = expr(fn, r["o"][0], depth + 1, memo, impure)
+                base = (b[0], _norm_path(b[1] + ("&",)))
+            elif k == "cast":
+                b = expr(fn, r["o"][0], depth + 1, memo, impure)
+                base = (("cast", r.get("ty", ""), b), ())
+            elif k == "bin":
+                base = (("bin", r.get("op", "?"), expr(fn, r["o"][0], depth + 1, memo, impure), expr(fn, r["o"][1], depth + 1, memo, impure)), ())
+            elif k == "un":
+                base = (("un", r.get("op", "?"), expr(fn, r["o"][0], depth + 1, memo, impure)), ())
+            elif k == "discr":
+                base = (("discr", expr(fn, r["o"][0], depth + 1, memo, impure)), ())
+            elif k == "agg":
+                base = (("agg", r.get("n", ""), tuple(expr(fn, o, depth + 1, memo, impure) for o in r["o"])), ())
+            else:
+                base = (("opaque", ("stmt", ds[0][1], ds[0][2])), ())
+        else:
+            t = ds[0][2]
+            c = t["callee"] or ""
+            bad = any(a.startswith("&mut") for a in t.get("argtys", [])) or not c or "andom" in c \
+                or c.endswith(("::next", "::now", "::elapsed", "::fetch_add")) or c.startswith("core::ops::function::Fn") \
+                or (impure is not None and impure(t))
+            if bad:
+                base = (("opaque", ("call", ds[0][1])), ())
+            else:
+                base = (("call", t["callee"], tuple(expr(fn, a, depth + 1, memo, impure) for a in t["args"])), ())
+        memo[l] = base
+    return (base[0], _norm_path(base[1] + tuple(proj)))
+
+
+def expr_has_input(e):
+    """does the expression depend on anything but literals?"""
+    root, _ = e
+    if root[0] in ("arg", "opaque"):
+        return True
+    if root[0] in ("const", "fn"):
+        return False
+    if root[0] == "call":
+        return any(expr_has_input(a) for a in root[2]) or not root[2]
+    if root[0] in ("bin",):
+        return expr_has_input(root[2]) or expr_has_input(root[3])
+    if root[0] in ("un", "cast"):
+        return expr_has_input(root[2])
+    if root[0] == "discr":
+        return expr_has_input(root[1])
+    if root[0] == "agg":
+        return any(expr_has_input(a) for a in root[2])
+    return True
+
+
+def expr_has_opaque(e):
+    root, path = e
+    if any(isinstance(p, tuple) and p[0] == "idx" and expr_has_opaque(p[1]) for p in path):
+        return True
+    if root[0] == "opaque":
+        return True
+    if root[0] == "call":
+        return any(expr_has_opaque(a) for a in root[2])
+    if root[0] == "bin":
+        return expr_has_opaque(root[2]) or expr_has_opaque(root[3])
+    if root[0] in ("un", "cast"):
+        return expr_has_opaque(root[2])
+    if root[0] == "discr":
+        return expr_has_opaque(root[1])
+    if root[0] == "agg":
+        return any(expr_has_opaque(a) for a in root[2])
+    return False
+
+
+CMP_CALLS = ("core::cmp::PartialEq::eq", "core::cmp::PartialEq::ne", "core::cmp::PartialOrd::lt", "core::cmp::PartialOrd::le", "core::cmp::PartialOrd::gt",
+             "core::cmp::PartialOrd::ge", "core::cmp::PartialOrd::partial_cmp", "core::cmp::Ord::cmp", "core::f64::<impl f64>::total_cmp",
+             "core::cmp::Ord::max", "core::cmp::Ord::min", "core::f64::<impl f64>::max", "core::f64::<impl f64>::min")
+CMP_BINOPS = ("Eq", "Ne", "Lt", "Le", "Gt", "Ge")
+
+
+def self_comparisons(fn, impure=None):
+    """comparison sites of fn whose two operands are the same canonical expression: [(line, what, expr)]"""
+    out = []
+    memo = {}
+    for bi, t in calls(fn):
+        if t["callee"] in CMP_CALLS and len(t["args"]) == 2 and not t.get("x"):
+            a, b = expr(fn, t["args"][0], 0, memo, impure), expr(fn, t["args"][1], 0, memo, impure)
+            if a == b and expr_has_input(a) and not expr_has_opaque(a):
+                out.append((t["ln"], t["callee"].split("::")[-1], a))
+    for bi, si, s in stmts(fn):
+        r = s["r"]
+        if r["k"] == "bin" and r.get("op") in CMP_BINOPS and not s.get("x"):
+            a, b = expr(fn, r["o"][0], 0, memo, impure), expr(fn, r["o"][1], 0, memo, impure)
+            if a == b and expr_has_input(a) and not expr_has_opaque(a):
+                out.append((s.get("ln"), r["op"], a))
+    return out
